@@ -15,10 +15,12 @@ Import ListNotations.
 
 Inductive outcome := Done (n : nat) | Eintr | Fail (errno : nat).
 
-(* which exception class leaves the function: FDException/ErrnoException (carrying errno) or EndOfFileException *)
-Inductive exn := EFd (errno : nat) | EEof.
+(* which exception class leaves the function: FDException/ErrnoException (carrying errno), EndOfFileException, or
+   -- for a write(2) that returned 0 -- an FDException whose errno is whatever errno held before (WriteOrThrow sets
+   errno = 0 once per chunk, so it is 0, or EINTR when an interrupted attempt preceded: the number is stale) *)
+Inductive exn_kind := EFd (errno : nat) | EEof | EZero.
 
-Inductive status := Ok | Throw (x : exn) | NoOracle.
+Inductive status := Ok | Throw (x : exn_kind) | NoOracle.
 
 Definition is_eintr (x : outcome) : bool := match x with Eintr => true | _ => false end.
 (* the oracle with every interrupted call removed *)
@@ -44,7 +46,7 @@ Section Bytes.
       | Fail e :: o' => ([], o', Throw (EFd e))
       | Done n :: o' =>
         match Nat.min n (length data) with
-        | O => ([], o', Throw (EFd 0))               (* ret == 0: "ret < 1" throws with errno == 0 *)
+        | O => ([], o', Throw EZero)                 (* ret == 0: "ret < 1" throws *)
         | S _ as k =>
           let '(w, r, s) := write_loop o' (skipn k data) in (firstn k data ++ w, r, s)
         end
@@ -188,17 +190,36 @@ Section Bytes.
       else (buf ++ d, [], o, Ok)
     end.
 
-  (* a stream's life: the operations, then the destructor's flush().  A throwing destructor terminates the
-     process (std::terminate): for the result that is a failure like any other.  result (out, oracle, status) *)
-  Fixpoint fs_run (cap : nat) (o : list outcome) (buf : list A) (ops : list fs_op) : list A * list outcome * status :=
+  (* the operations of a stream's life, up to the first one that throws.  result (buffer, out, oracle, status) *)
+  Fixpoint fs_ops (cap : nat) (o : list outcome) (buf : list A) (ops : list fs_op) : list A * list A * list outcome * status :=
     match ops with
-    | [] => let '(_, w, r, s) := fs_flush o buf in (w, r, s)
+    | [] => (buf, [], o, Ok)
     | op :: rest =>
       let '(buf1, w1, o1, s1) := fs_step cap o buf op in
       match s1 with
-      | Ok => let '(w2, o2, s2) := fs_run cap o1 buf1 rest in (w1 ++ w2, o2, s2)
-      | _ => (w1, o1, s1)
+      | Ok => let '(buf2, w2, o2, s2) := fs_ops cap o1 buf1 rest in (buf2, w1 ++ w2, o2, s2)
+      | _ => (buf1, w1, o1, s1)
       end
+    end.
+
+  (* ... then ~FileStream() { flush(); } runs, at the end of the scope or while the exception of a failed
+     operation unwinds the stack.  The destructor is noexcept: if its flush throws, std::terminate aborts
+     the process.  (After a failed flush the buffer still holds everything, so the retry from the
+     destructor can write bytes a second time; the run is then already a failure.) *)
+  Inductive fs_status := FsOk | FsThrow (x : exn_kind) | FsAbort | FsNoOracle.
+
+  Definition fs_run (cap : nat) (o : list outcome) (buf : list A) (ops : list fs_op) : list A * list outcome * fs_status :=
+    let '(buf1, w1, o1, s1) := fs_ops cap o buf ops in
+    match s1 with
+    | NoOracle => (w1, o1, FsNoOracle)
+    | _ =>
+      let '(_, w2, o2, s2) := fs_flush o1 buf1 in
+      (w1 ++ w2, o2,
+       match s2 with
+       | NoOracle => FsNoOracle
+       | Throw _ => FsAbort
+       | Ok => match s1 with Ok => FsOk | Throw x => FsThrow x | NoOracle => FsNoOracle end
+       end)
     end.
 
   (* ------------------------------------------------------------------------------------------
@@ -225,7 +246,7 @@ Section Bytes.
     end.
   Definition resize (f : list A) (n : nat) : list A := firstn n (f ++ repeat zero (n - length f)).
 
-  Inductive exit := Exit0 | ExitFail (x : exn) | ExitNoOracle.
+  Inductive exit := Exit0 | ExitFail (x : exn_kind) | ExitNoOracle.
 
   (* run under an oracle; fuel bounds the number of program steps (each step is one primitive) *)
   Fixpoint run (p : prog) (o : list outcome) (fs : fsys) : fsys * exit :=
